@@ -472,6 +472,43 @@ def finish(ck: Check, mod, st: ProofStatus) -> int:
     return exit_code
 
 
+def source_fingerprints(prop: str) -> dict:
+    """DESIGN §5.3: hash of the normalised AST (docstrings stripped) of every source file the property is anchored in, and
+    which of them differ from the hashes the model was last validated against (fingerprints/<prop>.json, committed).
+    Informational only: a changed hash never decides anything."""
+    import ast
+    out = {"files": {}, "changed_since_last_validation": []}
+    try:
+        anchors = []
+        for line in (VERIF / "properties.jsonl").read_text().splitlines():
+            if line.strip():
+                d = json.loads(line)
+                if d.get("id") == prop:
+                    anchors = list(d.get("anchors", {}).get("files", []))
+        base_file = VERIF / "fingerprints" / f"{prop}.json"
+        base = json.loads(base_file.read_text()) if base_file.exists() else {}
+        for rel in anchors:
+            f = REPO / rel
+            if not f.is_file() or f.suffix != ".py":
+                continue
+            tree = ast.parse(f.read_text())
+            for node in ast.walk(tree):
+                if isinstance(node, (ast.FunctionDef, ast.AsyncFunctionDef, ast.ClassDef, ast.Module)) and node.body and \
+                        isinstance(node.body[0], ast.Expr) and isinstance(getattr(node.body[0], "value", None), ast.Constant) and \
+                        isinstance(node.body[0].value.value, str):
+                    node.body = node.body[1:] or [ast.Pass()]
+            h = hashlib.sha1(ast.dump(tree, include_attributes=False).encode()).hexdigest()
+            out["files"][rel] = h
+            if base.get(rel) not in (None, h):
+                out["changed_since_last_validation"].append(rel)
+        if os.environ.get("VERIF_UPDATE_FINGERPRINTS") == "1" and REPO == Path("/repo"):
+            base_file.parent.mkdir(exist_ok=True)
+            base_file.write_text(json.dumps(out["files"], indent=1, sort_keys=True) + "\n")
+    except Exception as e:  # never a verdict
+        out["error"] = repr(e)
+    return out
+
+
 def write_evidence(ck: Check, mod, st: ProofStatus, exit_code: int):
     names = sorted(st.theorems)
     discharged = [n for n in names if all(a in ALLOWED_AXIOMS for a in st.theorems[n])] if st.ok else []
@@ -504,6 +541,7 @@ def write_evidence(ck: Check, mod, st: ProofStatus, exit_code: int):
                 "oracle_evaluations": ck.oracle_evals,
                 "distribution": dict(sorted(ck.counters.items())),
             },
+            "source_fingerprints": source_fingerprints(ck.prop),
             "known_findings_hit": ck.known_hits,
             "fixed_findings_on_file": [f for f in ck.fixed if f"property={ck.prop} " in f],
             **ck.extra,
